@@ -1,5 +1,7 @@
 """Translator: match tables, Where flag sets, alignment scores -> Cutadapt/Generated/Tables.lean.
-Reads the scratch build of /repo's working tree (import) and the DEF lines of _align.pyx (regex)."""
+Everything is taken from the *behaviour* of the scratch build of /repo's working tree (import, call, probe), so that a harmless
+rewrite of the source text does not break the tie; where the source text also states the constant (DEF lines of _align.pyx, the
+`indel_cost = … if self.indels else …` line) it is read as a cross-check and a disagreement is an error."""
 import importlib
 import os
 import re
@@ -11,14 +13,39 @@ def generate(build_dir):
     al = importlib.import_module("cutadapt.align")
     acgt, iupac, upper = mt._acgt_table(), mt._iupac_table(), mt._upper_table()
     assert len(acgt) == len(iupac) == len(upper) == 256
+    # scores, probed: global alignment (flags 0) of an 8-mer with itself, with one substitution, one deletion, one insertion
+    from cutadapt._align import Aligner
+    aln = Aligner("ACGTACGT", 0.9, flags=0, indel_cost=1, min_overlap=1)
+    exact, sub, dele, ins = aln.locate("ACGTACGT"), aln.locate("ACGAACGT"), aln.locate("ACGACGT"), aln.locate("ACGTTACGT")
+    assert exact[5] == 0 and sub[5] == dele[5] == ins[5] == 1, (exact, sub, dele, ins)
+    assert exact[4] % 8 == 0
+    match = exact[4] // 8
+    scores = {"MATCH_SCORE": match, "MISMATCH_SCORE": sub[4] - 7 * match, "DELETION_SCORE": dele[4] - 7 * match,
+              "INSERTION_SCORE": ins[4] - 8 * match}
     pyx = open(os.path.join(build_dir, "cutadapt", "_align.pyx")).read()
-    scores = {}
-    for name in ("MATCH_SCORE", "MISMATCH_SCORE", "INSERTION_SCORE", "DELETION_SCORE"):
+    for name in scores:
         m = re.search(r"^DEF %s = ([+-]?\d+)\s*$" % name, pyx, re.M)
-        scores[name] = int(m.group(1))
+        if m:
+            assert int(m.group(1)) == scores[name], f"{name}: source says {m.group(1)}, behaviour says {scores[name]}"
+    # indel costs: what `_make_aligner` passes to the aligner with indels on / off (recorded at the call)
+    seen = {}
+    real_aligner = ad.Aligner
+
+    def recording(*a, **k):
+        seen[len(seen)] = k.get("indel_cost")
+        return real_aligner(*a, **k)
+    ad.Aligner = recording
+    try:
+        ad.BackAdapter("ACGTACGT", max_errors=0.2, indels=True).aligner
+        ad.BackAdapter("ACGTACGT", max_errors=0.2, indels=False).aligner
+    finally:
+        ad.Aligner = real_aligner
+    indel_on, indel_off = seen[0], seen[1]
+    assert isinstance(indel_on, int) and isinstance(indel_off, int), seen
     src = open(os.path.join(build_dir, "cutadapt", "adapters.py")).read()
     m = re.search(r"indel_cost = (\d+) if self\.indels else (\d+)", src)
-    indel_on, indel_off = int(m.group(1)), int(m.group(2))
+    if m:
+        assert (int(m.group(1)), int(m.group(2))) == (indel_on, indel_off), "indel costs: source text and behaviour disagree"
 
     def arr(b):
         return "#[" + ", ".join(str(x) for x in b) + "]"
